@@ -498,15 +498,30 @@ def _family(payload):
 
 
 def classify(prompt, mode):
-    """Task of a rendered prompt (extends vf.fakes.classify_prompt with the tasks of the extra modes)."""
-    if isinstance(prompt, str):
-        tail = prompt.rstrip()
+    """Task of a rendered prompt (vf.fakes.classify_prompt extended with the tasks of the extra modes; the Colang 2.x
+    tasks are only recognised in Colang 2.x modes: a hostile v1 intent such as `bot intent:` ends up at the end of later
+    v1 prompts)."""
+    if not isinstance(prompt, str):
+        return "general"
+    tail = prompt.rstrip()
+    if MODES[mode][0] == 1:
+        if prompt.startswith("VF-SELF-CHECK-INPUT"):
+            return "self_check_input"
+        if prompt.startswith("VF-SELF-CHECK-OUTPUT"):
+            return "self_check_output"
         if "# For each user message, generate the next steps and finish with the bot message." in prompt:
             return "single_call"
-        if "# Complete the following flow based on its name:" in prompt:
-            return "v2_flow_from_name"
-        if re.search(r"\$\w+ =$", tail):
-            return "v1_value" if "# This is how the bot thinks:" in prompt else "v2_value"
+        if "# This is how the user talks:" in prompt:
+            return "generate_user_intent"
+        if "# This is how the bot thinks:" in prompt:
+            return "v1_value" if re.search(r"\$\w+ =$", tail) else "generate_next_steps"
+        if "# This is how the bot talks:" in prompt:
+            return "generate_bot_message"
+        return "general"
+    if "# Complete the following flow based on its name:" in prompt:
+        return "v2_flow_from_name"
+    if re.search(r"\$\w+ =$", tail):
+        return "v2_value"
     task = fakes.classify_prompt(prompt)
     if task == "v2_user_intent" and mode == "v2llmc1":
         return "v2_intent_and_action"
@@ -1016,9 +1031,11 @@ def known(case, violation):
             return "C17-F7b"  # started flow yields no next step: next_events[-1] on an empty list
         if "Too many events" in kind and d.get("exc_where") == "runtime.py:generate_events":
             return "C17-F7c"  # generated flow needs more than 100 events (while True, >= ~25 steps)
-        if d.get("exc_type") == "KeyError" and d.get("exc_where") == "flows.py:_slide_with_subflows" and in_start_flow:
+        if d.get("exc_type") == "KeyError" and d.get("exc_where") == "flows.py:_slide_with_subflows" and any(
+            re.search(r"^\s*do ", h[5], re.M) for h in d.get("hostile", []) if h[2] == "generate_next_steps"
+        ):
             return "C17-F7d"  # `do <unknown subflow>` in the generated flow
-    if kind == "hang:multi" and "sliding.py:slide" in (d.get("hang_chain") or []) and "runtime.py:_process_start_flow" in (d.get("hang_chain") or []):
+    if kind == "hang:multi" and "sliding.py:slide" in (d.get("hang_chain") or []) and "runtime.py:generate_events" in (d.get("hang_chain") or []):
         return "C17-F7e"  # jump cycle without a yielding element in the generated flow: slide() never returns
     if kind.startswith("template-evaluated:") and d.get("task") in ("v2_flow_continuation", "v2_intent_and_action", "v2_flow_from_name"):
         payload, reply = d.get("payload", ""), d.get("reply", "")
